@@ -142,11 +142,11 @@ example : authority (some [[0x61], [0x62]]) [0x61] (fun _ => false) 1000 1029 [0
 
 /-- **no_zone_all_active.**  Without a local zone every run decides "authority" for every name, and after one run
     over any set of objects every active run-once object is unpaused. -/
-theorem no_zone_all_active (self : Name) (conn : List Name) (start now : Int) (cfgs : List ObjCfg) (objs : List Obj) :
-    (∀ name, authority none self (fun e => conn.contains e) start now name = .set true) ∧
+theorem no_zone_all_active (self : Name) (conn : List Client) (start now : Int) (cfgs : List ObjCfg) (objs : List Obj) :
+    (∀ name, authority none self (connectedTo conn) start now name = .set true) ∧
     ∀ (i : Nat) (c : ObjCfg) (o : Obj),
       cfgs[i]? = some c →
-      (Node.update cfgs { zone := none, self := self, conn := conn, start := start, objs := objs } now).objs[i]? = some o →
+      (Node.update cfgs { zone := none, self := self, clients := conn, start := start, objs := objs } now).objs[i]? = some o →
       touched c = true → o.paused = false := by
   refine ⟨fun _ => rfl, ?_⟩
   intro i c o hc ho ht
@@ -160,7 +160,7 @@ theorem no_zone_all_active (self : Name) (conn : List Name) (start now : Int) (c
     simp [applyVerdict, ht] at ho
     rw [← ho, setAuthority_paused]; rfl
 
-example : (Node.update [exCfg] { zone := none, self := [0x61], conn := [], start := 0, objs := [fresh exCfg] } 7).objs
+example : (Node.update [exCfg] { zone := none, self := [0x61], clients := [], start := 0, objs := [fresh exCfg] } 7).objs
     = [(ob false 0 1)] := by decide
 
 /-- A zone of one's own (one member) behaves the same: always "authority", never a cold start. -/
@@ -258,17 +258,186 @@ theorem exactly_one_does_the_work (c : ObjCfg) (a b : Obj) (hab : a.paused = !b.
   · intro hk hsa hsb
     cases hb : b.paused <;> simp [hk, hab, hb, hsa, hsb] <;> omega
 
+/-- **one_round_settles** ("is active on exactly one endpoint", about the objects, not the verdicts).  From ANY state of the two
+    members — whatever happened before, whatever the object's state, start times and clocks — once each of them holds at least
+    one connection to the other and each has run `UpdateObjectAuthority` once (in either order), an active run-once object is
+    active on exactly one of them; and every later run on either side leaves it there. -/
+theorem one_round_settles (nA nB : Name) (hne : nA ≠ nB) (c : ObjCfg) (ht : touched c = true) (p : Pair)
+    (hA : p.a.sees = true) (hB : p.b.sees = true) (nowA nowB : Int) :
+    let p1 := step .pair nA nB c (step .pair nA nB c p (.upd .A nowA)) (.upd .B nowB)
+    let p2 := step .pair nA nB c (step .pair nA nB c p (.upd .B nowB)) (.upd .A nowA)
+    p1.a.obj.paused = !p1.b.obj.paused ∧ p2.a.obj.paused = !p2.b.obj.paused ∧
+    ∀ (s : Side) (now : Int), (step .pair nA nB c p1 (.upd s now)).a.obj.paused = p1.a.obj.paused ∧
+                              (step .pair nA nB c p1 (.upd s now)).b.obj.paused = p1.b.obj.paused := by
+  have hx := own_xor nA nB c.name hne
+  have vA : ∀ (h : Half), h.sees = true → ∀ now, (stepHalf .pair nA nB c .A h (.upd .A now)).obj.paused = !own nA nB c.name .A ∧
+      (stepHalf .pair nA nB c .A h (.upd .A now)).sees = true := by
+    intro h hs now
+    refine ⟨?_, hs⟩
+    simp only [stepHalf, authority_abs .pair nA nB hne .A h.sees h.start now c.name]
+    rw [hs]
+    simp [absVerdict, applyVerdict, ht, setAuthority_paused]
+  have vB : ∀ (h : Half), h.sees = true → ∀ now, (stepHalf .pair nA nB c .B h (.upd .B now)).obj.paused = !own nA nB c.name .B ∧
+      (stepHalf .pair nA nB c .B h (.upd .B now)).sees = true := by
+    intro h hs now
+    refine ⟨?_, hs⟩
+    simp only [stepHalf, authority_abs .pair nA nB hne .B h.sees h.start now c.name]
+    rw [hs]
+    simp [absVerdict, applyVerdict, ht, setAuthority_paused]
+  intro p1 p2
+  have h1a : p1.a.obj.paused = !own nA nB c.name .A := by simp only [p1, step, Ev.side]; exact (vA p.a hA nowA).1
+  have h1b : p1.b.obj.paused = !own nA nB c.name .B := by simp only [p1, step, Ev.side]; exact (vB p.b hB nowB).1
+  have h2a : p2.a.obj.paused = !own nA nB c.name .A := by simp only [p2, step, Ev.side]; exact (vA p.a hA nowA).1
+  have h2b : p2.b.obj.paused = !own nA nB c.name .B := by simp only [p2, step, Ev.side]; exact (vB p.b hB nowB).1
+  have s1a : p1.a.sees = true := by simp only [p1, step, Ev.side]; exact (vA p.a hA nowA).2
+  have s1b : p1.b.sees = true := by simp only [p1, step, Ev.side]; exact (vB p.b hB nowB).2
+  refine ⟨by rw [h1a, h1b, hx], by rw [h2a, h2b, hx], ?_⟩
+  intro s now
+  cases s with
+  | A => exact ⟨by simp only [step, Ev.side]; rw [(vA p1.a s1a now).1, h1a], by simp only [step, Ev.side]⟩
+  | B => exact ⟨by simp only [step, Ev.side], by simp only [step, Ev.side]; rw [(vB p1.b s1b now).1, h1b]⟩
+
+example : let p := step .pair [0x61] [0x62] exCfg (step .pair [0x61] [0x62] exCfg
+      (step .pair [0x61] [0x62] exCfg (step .pair [0x61] [0x62] exCfg (initPair exCfg) (.link .A 2 true)) (.link .B 0 true))
+      (.upd .A 7)) (.upd .B 9)
+    p.a.obj.paused = true ∧ p.b.obj.paused = false := by decide
+
+/-- **alone_after_grace_is_active** (about the object): from any state, a member of the two-member zone that holds no connection to
+    the other one and whose start-up grace period is over has every active run-once object unpaused after one run. -/
+theorem alone_after_grace_is_active (nA nB : Name) (hne : nA ≠ nB) (c : ObjCfg) (ht : touched c = true) (s : Side) (h : Half)
+    (hs : h.sees = false) (now : Int) (hstart : h.start ≠ 0) (hage : 30 ≤ now - h.start) :
+    (stepHalf .pair nA nB c s h (.upd s now)).obj.paused = false := by
+  have hg : inGrace h.start now = false := by
+    have : ¬ (now - h.start < 30) := by omega
+    simp [inGrace, hstart, this]
+  simp only [stepHalf, authority_abs .pair nA nB hne s h.sees h.start now c.name]
+  rw [hs]
+  simp [absVerdict, hg, applyVerdict, ht, setAuthority_paused]
+
+/-- **connected_while_a_connection_is_left** ("the set of connected endpoints": an endpoint is connected as long as at least one of
+    its connections is left).  Over ANY sequence of attach / remove events with arbitrary connection numbers (both members dial
+    each other, a redundant connection is closed, an event is repeated …) on a member's connections to the other one, the member
+    sees the other one afterwards iff there is a connection whose LAST event was "attach" (or that was open before and has had
+    no event) — and the object is not touched by any of this. -/
+theorem connected_while_a_connection_is_left (l : Layout) (nA nB : Name) (c : ObjCfg) (s : Side) (h : Half)
+    (evs : List (Nat × Bool)) :
+    let h' := evs.foldl (fun h e => stepHalf l nA nB c s h (.link s e.1 e.2)) h
+    (h'.sees = true ↔ ∃ id, openAfter (decide (id ∈ h.conns)) id evs = true) ∧ h'.obj = h.obj ∧ h'.start = h.start := by
+  have hfold : ∀ (evs : List (Nat × Bool)) (h : Half),
+      (evs.foldl (fun h e => stepHalf l nA nB c s h (.link s e.1 e.2)) h) = { h with conns := applyLinks h.conns evs } := by
+    intro evs
+    induction evs with
+    | nil => intro h; rfl
+    | cons e evs ih =>
+      intro h
+      rw [List.foldl_cons, ih]
+      simp only [stepHalf, applyLinks, List.foldl_cons]
+  intro h'
+  have hh : h' = { h with conns := applyLinks h.conns evs } := hfold evs h
+  rw [hh]
+  refine ⟨?_, rfl, rfl⟩
+  simp only [Half.sees]
+  constructor
+  · intro hne
+    cases hc : applyLinks h.conns evs with
+    | nil => simp [hc] at hne
+    | cons id rest => exact ⟨id, (mem_applyLinks evs h.conns id).1 (by simp [hc])⟩
+  · rintro ⟨id, hid⟩
+    have := (mem_applyLinks evs h.conns id).2 hid
+    cases hc : applyLinks h.conns evs with
+    | nil => simp [hc] at this
+    | cons _ _ => simp
+
+/-- Both members dialled each other (connections 0 and 1 attached), the redundant one is closed: still connected. -/
+example : (([(0, true), (1, true), (0, false)] : List (Nat × Bool)).foldl
+    (fun h e => stepHalf .pair [0x61] [0x62] exCfg .A h (.link .A e.1 e.2)) (initPair exCfg).a).sees = true := by decide
+
+/-- **closing_one_of_several_changes_nothing.**  A member that holds a further connection to the other one and closes one
+    (or attaches one more) decides exactly as before: the verdict of the next authority run — for every object, start time and
+    clock — is the one it would have been without the event. -/
+theorem closing_one_of_several_changes_nothing (l : Layout) (nA nB : Name) (c : ObjCfg) (s : Side) (h : Half)
+    (id other : Nat) (up : Bool) (hother : other ∈ h.conns) (hne : other ≠ id) (now : Int) :
+    stepHalf l nA nB c s (stepHalf l nA nB c s h (.link s id up)) (.upd s now)
+      = { stepHalf l nA nB c s h (.upd s now) with conns := (stepHalf l nA nB c s h (.link s id up)).conns } := by
+  have h1 : h.sees = true := by
+    simp only [Half.sees]
+    cases hc : h.conns with
+    | nil => simp [hc] at hother
+    | cons _ _ => rfl
+  have h2 : (stepHalf l nA nB c s h (.link s id up)).sees = true := by
+    have hm : other ∈ (stepHalf l nA nB c s h (.link s id up)).conns := by
+      cases up
+      · simp only [stepHalf]; exact (mem_setErase _ _ _).2 ⟨hother, hne⟩
+      · simp only [stepHalf]; exact (mem_setInsert _ _ _).2 (Or.inr hother)
+    simp only [Half.sees]
+    cases hc : (stepHalf l nA nB c s h (.link s id up)).conns with
+    | nil => simp [hc] at hm
+    | cons _ _ => rfl
+  simp only [stepHalf] at h2 ⊢
+  simp only [h1, h2]
+
+/-- **half_is_endpoint_set.**  The two-member system's "sees the other member" is `Endpoint::GetConnected()` of the node-level
+    model (the one the driver runs next to the real nodes): an authority run of a `Node` whose client set holds exactly the
+    member's connections to the other one decides what `stepHalf` decides. -/
+theorem half_is_endpoint_set (l : Layout) (nA nB : Name) (c : ObjCfg) (s : Side) (h : Half) (now : Int) :
+    (Node.update [c] { zone := zoneOf l nA nB s, self := selfOf nA nB s, start := h.start, objs := [h.obj],
+                       clients := h.conns.map (fun i => (otherOf nA nB s, i)) } now).objs
+      = [(stepHalf l nA nB c s h (.upd s now)).obj] := by
+  have hf : connectedTo (h.conns.map (fun i => (otherOf nA nB s, i))) = (fun e => h.sees && e == otherOf nA nB s) := by
+    funext e; rw [connectedTo_map]; rfl
+  simp [Node.update, stepHalf, hf]
+
+/-- **unseen_members_do_not_matter.**  A zone with further members that this node does not see (not connected) decides exactly
+    like the two-member zone — cold start, alone after the grace period, split with the other member — for every name, start
+    time and clock.  (The correspondence run evaluates the two-member specification on the real nodes of such zones for as
+    long as no further member has been connected.) -/
+theorem unseen_members_do_not_matter (nA nB : Name) (extras : List Name) (self : Name) (conn : Name → Bool)
+    (hx : ∀ e ∈ extras, e ≠ self ∧ conn e = false) (start now : Int) (name : Name) :
+    authority (some (nA :: nB :: extras)) self conn start now name = authority (some [nA, nB]) self conn start now name := by
+  have hc : candidates (nA :: nB :: extras) self conn = candidates [nA, nB] self conn := by
+    have he : extras.filter (fun e => e == self || conn e) = [] := by
+      apply List.filter_eq_nil_iff.2
+      intro e he
+      obtain ⟨h1, h2⟩ := hx e he
+      simp [h1, h2]
+    simp only [candidates, List.filter_cons, he, List.filter_nil]
+  have hcs : ∀ k, coldStart (nA :: nB :: extras).length k start now = coldStart [nA, nB].length k start now := by
+    intro k; simp [coldStart]
+  simp only [authority, hc, hcs]
+
+example : authority (some [[0x61], [0x62], [0x63], [0x64]]) [0x62] (· == [0x61]) 0 5 [0x68, 0x31]
+    = authority (some [[0x61], [0x62]]) [0x62] (· == [0x61]) 0 5 [0x68, 0x31] :=
+  unseen_members_do_not_matter _ _ _ _ _ (by decide) _ _ _
+
+/-- **restart_has_no_authority.**  However the process ended and whether or not its state file is restored into the new objects
+    (`keep`), a run-once object comes back paused with no `Pause()`/`Resume()` call and no execution behind it — it waits for an
+    authority run — and an active run-everywhere object comes back resumed exactly once. -/
+theorem restart_has_no_authority (c : ObjCfg) (old : Obj) (keep : Bool) :
+    freshLike c (restart c old keep) = true ∧
+    (touched c = true → (restart c old keep).paused = true ∧ (restart c old keep).resumes = 0 ∧ (restart c old keep).pauses = 0) ∧
+    (c.active = true → c.runOnce = false → (restart c old keep).paused = false ∧ (restart c old keep).resumes = 1) := by
+  refine ⟨freshLike_restart c old keep, ?_, ?_⟩
+  · intro ht
+    simp only [touched, Bool.and_eq_true] at ht
+    simp [restart, fresh, ht.1, ht.2]
+  · intro ha hr
+    simp [restart, fresh, ha, hr, setAuthority]
+
+example : restart exCfg { paused := false, pauses := 3, resumes := 4, execs := 9, stash := 2 } true
+    = { paused := true, pauses := 0, resumes := 0, execs := 0, stash := 2 } := by decide
+
 /-- The node-level run is the per-object verdict applied to every object (the loop of :56-81). -/
 theorem node_update_pointwise (cfgs : List ObjCfg) (n : Node) (now : Int) (i : Nat) (c : ObjCfg) (o : Obj)
     (hc : cfgs[i]? = some c) (ho : n.objs[i]? = some o) :
     (n.update cfgs now).objs[i]? =
-      some (applyVerdict c o (authority n.zone n.self (fun e => n.conn.contains e) n.start now c.name)) := by
+      some (applyVerdict c o (authority n.zone n.self (connectedTo n.clients) n.start now c.name)) := by
   simp [Node.update, List.getElem?_zipWith, hc, ho]
 
 /-- **model_trace_meets_spec** (the whole property as one statement).  For every layout of the property (no zone,
     a zone of one's own, one zone with both members), every two distinct endpoint names, every object (any name,
-    run-once or run-everywhere, active or not) and every finite sequence of (re)starts, connects, disconnects,
-    authority runs with arbitrary clocks and other events on both members, the observed trace of the model
+    run-once or run-everywhere, active or not) and every finite sequence of (re)starts — with new objects only or through the
+    state file of the old process —, attach / remove events of arbitrarily numbered connections (an endpoint is connected while
+    one is left), authority runs with arbitrary clocks and other events on both members, the observed trace of the model
     satisfies the executable specification `specTrace`: exactly one active whenever both are settled with each
     other, the same split every time, all active when alone after the grace period / without a zone, nothing
     changes during the cold start or without an authority run, `Pause`/`Resume` exactly once per change. -/
@@ -279,16 +448,35 @@ theorem model_trace_meets_spec (l : Layout) (nA nB : Name) (hne : nA ≠ nB) (c 
 /-- Non-vacuity: a concrete history in which both members settle and split the object. -/
 example :
     (trace .pair [0x61] [0x62] exCfg (initPair exCfg)
-      [.boot .A 1000, .boot .B 1000, .link .A true, .link .B true, .upd .A 1001, .upd .B 1001]).getLast?
+      [.boot .A 1000 false, .boot .B 1000 false, .link .A 0 true, .link .B 0 true, .upd .A 1001, .upd .B 1001]).getLast?
       = some (.upd .B 1001, (ob true 0 0), (ob false 0 1)) := by decide
 
 /-- The specification is not vacuous: it rejects a trace in which both members end up active. -/
 example :
     specTrace .pair exCfg (specInit exCfg)
-      [(.boot .A 1000, (ob true 0 0), (ob true 0 0)), (.boot .B 1000, (ob true 0 0), (ob true 0 0)),
-       (.link .A true, (ob true 0 0), (ob true 0 0)), (.link .B true, (ob true 0 0), (ob true 0 0)),
+      [(.boot .A 1000 false, (ob true 0 0), (ob true 0 0)), (.boot .B 1000 false, (ob true 0 0), (ob true 0 0)),
+       (.link .A 0 true, (ob true 0 0), (ob true 0 0)), (.link .B 0 true, (ob true 0 0), (ob true 0 0)),
        (.upd .A 1001, (ob false 0 1), (ob true 0 0)), (.upd .B 1001, (ob false 0 1), (ob false 0 1))]
       = some .exactlyOne := by decide
+
+/-- … one in which a member that closed ONE of its two connections to the other member takes everything over although the
+    two still see each other … -/
+example :
+    specTrace .pair exCfg (specInit exCfg)
+      [(.boot .A 1000 false, (ob true 0 0), (ob true 0 0)), (.boot .B 1000 false, (ob true 0 0), (ob true 0 0)),
+       (.link .A 0 true, (ob true 0 0), (ob true 0 0)), (.link .A 1 true, (ob true 0 0), (ob true 0 0)),
+       (.link .B 0 true, (ob true 0 0), (ob true 0 0)),
+       (.upd .A 1040, (ob true 0 0), (ob true 0 0)), (.upd .B 1040, (ob true 0 0), (ob false 0 1)),
+       (.link .A 0 false, (ob true 0 0), (ob false 0 1)),
+       (.upd .A 1050, (ob false 0 1), (ob false 0 1))]
+      = some .exactlyOne := by decide
+
+/-- … one in which a process restarted through its state file comes back active without any authority decision … -/
+example :
+    specTrace .pair exCfg (specInit exCfg)
+      [(.boot .A 1000 false, (ob true 0 0), (ob true 0 0)), (.upd .A 1040, (ob false 0 1), (ob true 0 0)),
+       (.boot .A 1100 true, (ob false 0 0), (ob true 0 0))]
+      = some .freshAfterBoot := by decide
 
 /-- … and one in which `Resume()` ran twice for one change. -/
 example :
@@ -299,7 +487,7 @@ example :
 example :
     specTrace .pair { name := [0x6e], runOnce := true, active := true, kind := .notification }
       (specInit { name := [0x6e], runOnce := true, active := true, kind := .notification })
-      [(.boot .A 1000, ob true 0 0, ob true 0 0),
+      [(.boot .A 1000 false, ob true 0 0, ob true 0 0),
        (.request .A, { paused := true, pauses := 0, resumes := 0, execs := 0, stash := 1 }, ob true 0 0),
        (.ntimer .A, { paused := true, pauses := 0, resumes := 0, execs := 1, stash := 0 }, ob true 0 0)]
       = some .pausedNodeIsSilent := by decide
@@ -315,7 +503,7 @@ example :
 example :
     (trace .pair [0x61] [0x62] { name := [0x6e], runOnce := true, active := true, kind := .notification }
       (initPair { name := [0x6e], runOnce := true, active := true, kind := .notification })
-      [.boot .A 1000, .request .A, .ntimer .A, .upd .A 1031, .ntimer .A]).getLast?
+      [.boot .A 1000 false, .request .A, .ntimer .A, .upd .A 1031, .ntimer .A]).getLast?
       = some (.ntimer .A, { paused := false, pauses := 0, resumes := 1, execs := 1, stash := 0 }, ob true 0 0) := by decide
 
 /-- The hash: sign extension of bytes ≥ 0x80 and the 64-bit wrap-around, on concrete values that the harness also
